@@ -70,6 +70,11 @@ PLAN = {
     'C09': dict(kani=['number-ast', 'number-l4'], level='proof', assumptions=KANI_ASSUME,
                 unclaimed=['value of Integer ^ Integer (Kani 0.68 mis-models this arm: its counterexamples do not replay natively)',
                            'value of the Float quotient / remainder beyond the bounded domain', 'integer vs float literal distinction (tokenizer)']),
+    'C17': dict(verus=PARSERS, features_sweep=True, level='proof',
+                assumptions=PARSER_ASSUME + ['cargo feature resolution; the all-features test suite is the baseline, the crate\'s unit tests are not re-run per subset',
+                                             'the cfg-dependent text is only the category enum: per subset the derived order is re-proved by Kani and the build/export probe is compiled; '
+                                             'the parsers are re-verified for both shapes of the enum (with and without the eval_i64 categories)'],
+                unclaimed=['"same result for every input as in the default build" follows from: nothing else is cfg-dependent (S:c17/cfg-frame) and the order of the remaining categories is unchanged; it is not a separately machine-checked relational theorem']),
     'C18': dict(kani=['number-l4'], level='proof',
                 assumptions=['A-ieee: rustc/LLVM and CBMC agree on IEEE-754 binary64 comparison, floor and float->int casts',
                              'loop-free harness over kani::any::<f64>() / kani::any::<i64>(): every bit pattern, no bound'],
@@ -91,6 +96,10 @@ PLAN = {
     'C04': dict(verus=PARSERS, kani=['tables'], level='proof', assumptions=PARSER_ASSUME, unclaimed=[]),
     'C12': dict(verus=PARSERS, level='proof', assumptions=PARSER_ASSUME, unclaimed=[]),
 }
+
+
+C17_QUICK_SUBSETS = [['eval_decimal'], ['eval_f64'], ['eval_i64'], ['eval_complex'], ['eval_number'],
+                     ['eval_f64', 'eval_number'], ['eval_decimal', 'eval_f64', 'eval_i64', 'eval_complex', 'eval_number']]
 
 
 def verus_units(pid, tier):
@@ -124,6 +133,9 @@ LEVEL_TEXT['C05'] = ('Kani/CBMC proves one loop-free harness per Node constructo
 LEVEL_TEXT['C09'] = ('Kani/CBMC proves one harness per Node constructor and operand-variant combination of eval_number over fully symbolic Integer/Float leaves: '
                      'Integer results are exact when they fit and otherwise the Float of the operands, Float operands give the IEEE value, rounding functions return the rounded value, '
                      'plus Number::from over all doubles.')
+LEVEL_TEXT['C17'] = ('For each feature subset (quick: the 5 singletons, one pair and the full set; thorough: all 31) a generated probe crate is compiled against the crate built with exactly that subset '
+                     '(it names every selected export and would be ambiguous on any other), Kani re-proves the derived category order under that cfg, and Verus re-verifies the parsers for both shapes of the '
+                     'cfg-dependent enum; a syntactic frame check shows nothing else is cfg-dependent.')
 DESIGN_REF = {}
 TECHNIQUE = {'C18': 'contract-style full-domain Kani harness on the unmodified function (bit-precise, no unwinding bound)'}
 NOT_APPLICABLE = {
@@ -131,6 +143,5 @@ NOT_APPLICABLE = {
     'C08': 'not yet covered: eval_complex::ast against the num_complex contract header is not built yet',
     'C15': 'not yet covered: relational Kani obligations between evaluators are not built yet',
     'C16': 'contracts speak about one call: neither installed verifier can quantify over unbounded call histories or thread interleavings (Kani has no threads; Verus would need permission types around code that has no shared state to annotate)',
-    'C17': 'not yet covered: per-feature-subset re-verification is not built yet',
     'C19': 'not yet covered: tokenizer literal arms (L1) are not under contract yet',
 }
